@@ -21,8 +21,11 @@ ASSUMPTIONS = [
     "pytrie.StringTrie.longest_prefix_value returns the value stored under the longest stored prefix or raises KeyError",
 ]
 LEVEL = "other"
-NOT_COVERED = ["the INVOCATION / RESULT / YIELD arms and publish() / call() (same decode-then-compare pattern as the EVENT and "
-               "ERROR paths that are covered)", "Key / KeyRing construction, set_key, rotate_key",
+NOT_COVERED = ["the YIELD direction of progressive results inside the invocation's success closure and publish() / call() "
+               "(encode side; same encode-as-role pattern as the ERROR path that is covered)",
+               "positional arguments in the EVENT / INVOCATION arms (tuple(msg.args) of a symbolic list): the units are proved "
+               "for sealed payloads without positional arguments, keyword arguments are covered",
+               "Key / KeyRing construction, set_key, rotate_key",
                "cryptographic strength of NaCl and the JSON codec (assumed laws)"]
 CB = "autobahn.wamp.cryptobox"
 IS = z3.IntSort()
@@ -397,6 +400,105 @@ def build_session(reg):
             "modifies": ["ghost.invoked", "msg.args", "msg.kwargs", "ghost.n_decode", "ghost.n_ok", "ghost.n_bad",
                          "ghost.last_is_orig", "ghost.dec_args", "ghost.dec_kwargs"],
             "vars": {"subscription": "sym:Subscription", "handler": "sym:HandlerRec"}}),
+        **common)
+
+    # ---- an encrypted RESULT on the caller side: the call completes successfully only after one decode, as originator and
+    #      with the procedure of *this* call, that opened and names that procedure; otherwise it is rejected with one of the
+    #      three explicit encryption errors and the progress handler is not run
+    from . import c04
+    event_as_future = reg.externals["txaio.as_future"]
+
+    def as_future(ex, state, args, kwargs, sv):
+        if state.frame.locals.get("call_request") is not None:
+            return c04._as_future(ex, state, args)          # the progress handler of a call
+        return event_as_future(ex, state, args, kwargs, sv)
+    reg.external("txaio.as_future", as_future)
+    models.CLASS_MODELS["CallResult"] = lambda ex, state, args, kwargs: VOpaque(fresh_name("CallResult"))
+    reg.shape("ResultEnc", cls=MSG + ":Result", fields={
+        "request": "int", "args": "opt:list:int", "kwargs": "opt:dict:str->int", "progress": "bool", "payload": "bytes",
+        "enc_algo": "str", "enc_key": "opt:str", "enc_serializer": "opt:str", "callee": "any", "callee_authid": "any",
+        "callee_authrole": "any", "forward_for": "any"})
+    T = "self._call_reqs"
+    F = "old(%s[msg.request].on_reply.addr)" % T
+    reg.contract(
+        SESS + ".onMessage", name=SESS + ".onMessage<Result,encrypted>",
+        params={"self": "obj:Session", "msg": "obj:ResultEnc"},
+        requires=["self._session_id is not None", "len(msg.enc_algo) > 0", "msg.args is None and msg.kwargs is None",
+                  "implies(msg.request in %s, allocated(%s[msg.request].on_reply) and %s[msg.request].request_id == msg.request)"
+                  % (T, T, T)],
+        modifies=[T, "Fut.done", "Fut.ok", "Fut.res_id", "ghost.n_completions", "ghost.n_progress", "ghost.last_progress_req",
+                  "msg.args", "msg.kwargs", "ghost.n_decode", "ghost.n_ok", "ghost.n_bad", "ghost.last_is_orig", "ghost.dec_args",
+                  "ghost.dec_kwargs"],
+        ensures=[
+            # at most one decode, as originator
+            "ghost.n_decode <= old(ghost.n_decode) + 1 and implies(ghost.n_decode > old(ghost.n_decode), ghost.last_is_orig)",
+            "implies(self._payload_codec is None, ghost.n_decode == old(ghost.n_decode))",
+            # a call is resolved (successfully) only by a decode that opened and names the procedure
+            "implies(not msg.progress and not old(fut_done(%s[msg.request].on_reply.addr)), fut_done(%s) and "
+            "(fut_ok(%s) == (ghost.n_ok == old(ghost.n_ok) + 1)))" % (T, F, F),
+            # a progressive result reaches the progress handler only after such a decode
+            "implies(msg.progress and ghost.n_ok == old(ghost.n_ok), ghost.n_progress == old(ghost.n_progress))",
+            "implies(msg.progress, ghost.n_completions == old(ghost.n_completions))"],
+        raises={"ProtocolError": "msg.request not in %s" % T},
+        raises_ensures={"ProtocolError": ["ghost.n_completions == old(ghost.n_completions) and ghost.n_decode == old(ghost.n_decode)"]},
+        **common)
+
+    # ---- an encrypted INVOCATION on the callee side: the endpoint runs only after one decode, as responder and with the
+    #      invoked procedure, that opened and names that procedure; otherwise the endpoint is not run and exactly one
+    #      ERROR(INVOCATION) for this request goes back
+    from .wamp_common import RQ
+    reg.shapes["Session"].fields.update({"_invocations": "dict:int->sym:InvocationRequest"})
+    reg.shape("InvocationRequest", cls=RQ + ":InvocationRequest", heap_base="Request",
+              fields={"request_id": "int", "on_reply": "sym:Fut"})
+    reg.record_class(RQ + ":InvocationRequest", "InvocationRequest")
+    reg.shapes["Ghost"].fields.update({"n_endpoint_calls": "nat"})
+    progress_as_future = reg.externals["txaio.as_future"]
+
+    def as_future2(ex, state, args, kwargs, sv):
+        if state.frame.locals.get("endpoint") is not None:
+            g = _gs(state)
+            g.fields["n_endpoint_calls"] = VInt(simp(g.fields["n_endpoint_calls"].t + 1))
+            return W.ext_create_future(ex, state, [], {}, None)
+        return progress_as_future(ex, state, args, kwargs, sv)
+    reg.external("txaio.as_future", as_future2)
+    models.CLASS_MODELS["CallDetails"] = lambda ex, state, args, kwargs: VInt(z3.Int(fresh_name("call_details")))
+    reg.shape("InvocationEnc", cls=MSG + ":Invocation", fields={
+        "request": "int", "registration": "int", "args": "opt:list:int", "kwargs": "opt:dict:str->int", "payload": "bytes",
+        "timeout": "any", "receive_progress": "bool", "caller": "any", "caller_authid": "any", "caller_authrole": "any",
+        "procedure": "opt:str", "transaction_hash": "any", "enc_algo": "str", "enc_key": "opt:str", "enc_serializer": "opt:str",
+        "forward_for": "any"})
+    reg.shape("ErrorReply", cls=MSG + ":Error", fields={"request_type": "int", "request": "int", "error": "str",
+                                                        "args": "any", "kwargs": "any", "payload": "any", "enc_algo": "any"})
+    # the ERROR built for an encryption error: request type and id as given (the function itself is under contract above
+    # for the codec-active case; here only its interface is used)
+    iface = reg.contract(BASE + "._message_from_exception", name=BASE + "._message_from_exception<interface>",
+                 params={"self": "obj:Session", "request_type": "int", "request": "int", "exc": "any", "tb": "any",
+                         "enc_algo": "any"},
+                 returns="obj:ErrorReply", ensures=["result.request_type == request_type and result.request == request"],
+                 verify=False, **common)
+    reg.contracts[BASE + "._message_from_exception"] = iface       # what call sites see
+    reg.contract(
+        SESS + ".onMessage", name=SESS + ".onMessage<Invocation,encrypted>",
+        params={"self": "obj:Session", "msg": "obj:InvocationEnc"},
+        requires=["self._session_id is not None", "self._transport is not None", "len(msg.enc_algo) > 0",
+                  "msg.args is None and msg.kwargs is None", "ghost.no_sealed_args"],
+        modifies=["self._invocations", "InvocationRequest.*", "Request.*", "Fut.*", "ghost.n_endpoint_calls", "ghost.n_sent",
+                  "ghost.last_sent", "msg.args", "msg.kwargs", "ghost.n_decode", "ghost.n_ok", "ghost.n_bad",
+                  "ghost.last_is_orig", "ghost.dec_args", "ghost.dec_kwargs", "ghost.n_encode", "ghost.sealed", "EncPayload.*"],
+        ensures=[
+            "ghost.n_decode <= old(ghost.n_decode) + 1 and implies(ghost.n_decode > old(ghost.n_decode), not ghost.last_is_orig)",
+            # the endpoint runs exactly when a decode opened and names the procedure ...
+            "ghost.n_endpoint_calls - old(ghost.n_endpoint_calls) == ghost.n_ok - old(ghost.n_ok)",
+            # ... and otherwise exactly one ERROR for this invocation goes back, and no invocation is recorded
+            "implies(ghost.n_ok == old(ghost.n_ok), ghost.n_sent == old(ghost.n_sent) + 1 and isinstance(ghost.last_sent, Error) "
+            "and ghost.last_sent.request == msg.request and ghost.last_sent.request_type == 68 and "
+            "msg.request not in self._invocations)",
+            "implies(ghost.n_ok > old(ghost.n_ok), ghost.n_sent == old(ghost.n_sent) and msg.request in self._invocations)"],
+        raises={"ProtocolError": "msg.request in self._invocations or msg.registration not in self._registrations",
+                "TransportLost": "True", "SerializationError": "True", "PayloadExceededError": "True"},
+        raises_ensures={"ProtocolError": ["ghost.n_endpoint_calls == old(ghost.n_endpoint_calls) and "
+                                          "ghost.n_sent == old(ghost.n_sent) and ghost.n_decode == old(ghost.n_decode)"],
+                        "*": ["ghost.n_endpoint_calls == old(ghost.n_endpoint_calls)"]},
         **common)
 
 
